@@ -207,10 +207,21 @@ func c14Closures(c *core.Ctx) {
 	}
 	kind := Kinds[r.Intn(5)]
 	fold := r.Chance(1, 3)
+	paren, nopad, encap := r.Chance(1, 3), r.Chance(1, 4), r.Chance(1, 4)
 	build := func() stackage.Stack {
 		st := NewStack(kind, 0).Push("a", stackage.Or().Push("n1", "n2"), 7)
 		if fold {
 			st.SetFold(true)
+		}
+		// presentation options are the built-in renderer's business: a closure's result is returned as it is
+		if paren {
+			st.SetParen(true)
+		}
+		if nopad {
+			st.SetNoPadding(true)
+		}
+		if encap {
+			st.SetEncap(`"`)
 		}
 		return st
 	}
@@ -299,6 +310,21 @@ func c14Closures(c *core.Ctx) {
 			installed.ma = false
 		}
 		c.Count("closure-steps.stack")
+		// a closure keeps deciding while the instance is read-only (the flag is raised after the closures are in,
+		// by any of its spellings, and lifted again after the observations)
+		roNow := r.Chance(1, 4)
+		if roNow {
+			switch r.Intn(3) {
+			case 0:
+				s.SetReadOnly(true)
+			case 1:
+				s.ReadOnly(true)
+			default:
+				s.SetReadOnly()
+			}
+			twin.SetReadOnly(true)
+			c.Count("closure-steps.observed-while-read-only")
+		}
 		// ---- observe and compare with the twin (which never had a closure)
 		verr := s.Valid()
 		if installed.vp {
@@ -386,7 +412,7 @@ func c14Closures(c *core.Ctx) {
 				c.Violatef("marshal-closure-ignored", desc(), "Marshal()=%v Len %d->%d; closure returns its own error and stores nothing", merr, before, s.Len())
 				return
 			}
-		} else {
+		} else if !roNow {
 			before := s.Len()
 			merr := s.Marshal("AND", "x")
 			terr := twin.Marshal("AND", "x")
@@ -395,6 +421,10 @@ func c14Closures(c *core.Ctx) {
 				c.Violatef("marshal-not-restored", desc(), "Marshal()=%v Len %d->%d; built-in gives %v and one more element", merr, before, s.Len(), terr)
 				return
 			}
+		}
+		if roNow {
+			s.SetReadOnly(false)
+			twin.SetReadOnly(false)
 		}
 	}
 	c.Count("closure-sequences.stack")
@@ -407,14 +437,26 @@ func c14Closures(c *core.Ctx) {
 func c14CondClosures(c *core.Ctx) {
 	r := c.Rng
 	incomplete := r.Chance(1, 4)
+	cparen, cnopad, cencap := r.Chance(1, 3), r.Chance(1, 4), r.Chance(1, 4)
 	build := func() stackage.Condition {
+		var cd stackage.Condition
 		if incomplete {
 			// keyword and operator only: the built-in rule rejects it, an accepting validity closure decides otherwise
-			var c stackage.Condition
-			c.Init()
-			return c.SetKeyword("kw").SetOperator(stackage.Eq)
+			cd.Init()
+			cd.SetKeyword("kw").SetOperator(stackage.Eq)
+		} else {
+			cd = stackage.Cond("kw", stackage.Eq, "val")
 		}
-		return stackage.Cond("kw", stackage.Eq, "val")
+		if cparen {
+			cd.SetParen(true)
+		}
+		if cnopad {
+			cd.SetNoPadding(true)
+		}
+		if cencap {
+			cd.SetEncap(`"`)
+		}
+		return cd
 	}
 	cd, twin, other := build(), build(), build()
 	var log []string
